@@ -213,6 +213,33 @@ class C12:
                         f"thresholds are not forwarded as given: absolute={show(b.get('min_absolute_overlap', NONE))}, "
                         f"relative={show(b.get('min_relative_overlap', NONE))}", s.returns[0].lineno)
 
+    def check_exports(self):
+        """R12.6: the four predicates are observed through `soundevent.geometry`: each must be bound there to the function of
+        geometry/operations.py, and `__all__` must name each public function once (a name listed twice is another one missing)."""
+        ctx = self.ctx
+        pkg = ctx.index.module("soundevent.geometry")
+        for name in ("intervals_overlap", "have_temporal_overlap", "have_frequency_overlap", "is_in_clip"):
+            sy = ctx.index.resolve(pkg, name)
+            if sy is not None and sy.kind == "func" and sy.module is not None and sy.module.name in (OPS, pkg.name) or \
+                    (sy is not None and sy.kind == "func" and ctx.index.canonical_qual("func", sy.qual) == f"{OPS}:{name}"):
+                ctx.ok("R12.6", f"{pkg.relpath} {name}", f"soundevent.geometry.{name} is the predicate of geometry/operations.py")
+            else:
+                ctx.bad("R12.6", pkg.relpath, name, f"soundevent.geometry.{name} unbound",
+                        f"`soundevent.geometry.{name}` does not exist: the package's __init__ does not import {name} from "
+                        f"geometry/operations.py, so the predicate cannot be reached through the public package "
+                        f"(AttributeError / ImportError for `from soundevent.geometry import {name}`)", 1)
+        for st in pkg.tree.body:
+            if isinstance(st, ast.Assign) and any(isinstance(t, ast.Name) and t.id == "__all__" for t in st.targets) and isinstance(st.value, (ast.List, ast.Tuple)):
+                names = [e.value for e in st.value.elts if isinstance(e, ast.Constant)]
+                dup = sorted({n for n in names if names.count(n) > 1})
+                unbound = [n for n in names if ctx.index.resolve(pkg, n) is None]
+                if dup or unbound:
+                    ctx.bad("R12.6", pkg.relpath, "__all__", f"__all__ duplicates {dup} unbound {unbound}",
+                            f"soundevent.geometry.__all__ lists {dup} twice{' and names unbound ' + str(unbound) if unbound else ''}: a duplicated "
+                            f"entry stands where another public name is missing", st.lineno)
+                else:
+                    ctx.ok("R12.6", f"{pkg.relpath}:{st.lineno} __all__", "every entry listed once and bound")
+
     def check_is_in_clip(self):
         ctx = self.ctx
         s = ctx.summ.of_func(OPS, "is_in_clip")
@@ -284,9 +311,11 @@ def run(ctx: Ctx):
     ctx.rule("R12.3", "threshold validation exact", 1)
     ctx.rule("R12.4", "temporal/frequency predicates: right projections, thresholds forwarded", 4)
     ctx.rule("R12.5", "is_in_clip truth table and negative minimum", 2)
+    ctx.rule("R12.6", "the predicates are exported by soundevent.geometry, each once", 5)
     c = C12(ctx)
     c.check_intervals_overlap()
     c.check_delegations()
+    c.check_exports()
     c.check_is_in_clip()
     # the extents compared are compute_bounds of the geometries: the bounds of the converted shape of the coordinates as given
     from . import c03, c05
